@@ -254,12 +254,15 @@ fn run16(c: &S16, o: &mut Obs) -> TestResult {
             }
         }
         "WeightedMean" | "WeightedMeanWithError" => {
-            let mut a = WeightedMean::new();
-            let mut b = WeightedMeanWithError::new();
-            for (x, w) in xs.iter().zip(&c.ys) {
-                a.add(*x, *w);
-                b.add(*x, *w);
-            }
+            // via_extend: the pairs arrive by reference (collect / extend in two pieces / extend from an
+            // iterator without a length, rotating with n) instead of through add
+            let pairs: Vec<(f64, f64)> = xs.iter().copied().zip(c.ys.iter().copied()).collect();
+            let (a, b): (WeightedMean, WeightedMeanWithError) = if c.via_extend {
+                let mode = [2u8, 4, 9][n % 3];
+                (super::c08::build_chunk(&pairs, mode), super::c08::build_chunk(&pairs, mode))
+            } else {
+                (super::c08::build_chunk(&pairs, 0), super::c08::build_chunk(&pairs, 0))
+            };
             let wsum: f64 = c.ys.iter().take(n).sum();
             let mut j = J { o, ty, n };
             if n == 0 {
@@ -303,10 +306,8 @@ fn run16(c: &S16, o: &mut Obs) -> TestResult {
             }
         }
         "Covariance" => {
-            let mut t = Covariance::new();
-            for (x, y) in xs.iter().zip(&c.ys) {
-                t.add(*x, *y);
-            }
+            let pairs: Vec<(f64, f64)> = xs.iter().copied().zip(c.ys.iter().copied()).collect();
+            let t: Covariance = super::c08::build_chunk(&pairs, if c.via_extend { [2u8, 4, 9][n % 3] } else { 0 });
             let constant_y = n >= 1 && c.ys.iter().take(n).all(|y| *y == c.ys[0]);
             let mut j = J { o, ty, n };
             j.eq("len", t.len() as f64, n as f64)?;
@@ -397,9 +398,12 @@ pub fn cases() -> Vec<S16> {
                         "Covariance" => (0..n).map(|i| match wmode { 0 => -v, 1 => 7.0, _ => 7.0 + i as f64 }).collect(),
                         _ => vec![0.0; n],
                     };
-                    out.push(S16 { ty: ty.to_string(), xs: xs.clone(), ys, via_extend: false });
+                    out.push(S16 { ty: ty.to_string(), xs: xs.clone(), ys: ys.clone(), via_extend: false });
                     if !matches!(*ty, "WeightedMean" | "WeightedMeanWithError" | "Covariance") {
                         break;
+                    }
+                    if n >= 1 {
+                        out.push(S16 { ty: ty.to_string(), xs: xs.clone(), ys, via_extend: true });
                     }
                 }
                 // non-constant
@@ -434,7 +438,7 @@ pub fn cases() -> Vec<S16> {
 }
 
 pub fn run(cx: &Ctx) {
-    cx.set_rule("cases = the finite table {Mean, Variance, Skewness, Kurtosis, Moments4, define_moments! orders 6 and 10, Min, Max, Quantile (p in {0, 0.5, 0.9, 1}), WeightedMean, WeightedMeanWithError, Covariance} x every accessor x sample sizes 0, 1, 2, 3, 4 (constant and non-constant; weights all positive / all zero / first zero) x 60 values spanning the C01 domain (both signs, 0, 1e+-30), plus constant streams of length 5, 10, 100, 1000, 10000, plus generated values. Oracle: the sentinel table of C16 (NaN / +-inf / 0 / 1), no panic except the documented zero-variance assertion of standardized_moment(p >= 3) (checked to be exactly that assertion), and for one observation or a constant add-only stream mean() == x and population_variance, variance_of_mean, error, skewness, kurtosis, central_moment(p >= 1) == 0, never NaN. Non-trivial = every table cell; distinct = hash of (type, values, weights)");
+    cx.set_rule("cases = the finite table {Mean, Variance, Skewness, Kurtosis, Moments4, define_moments! orders 6 and 10, Min, Max, Quantile (p in {0, 0.5, 0.9, 1}), WeightedMean, WeightedMeanWithError, Covariance} x every accessor x sample sizes 0, 1, 2, 3, 4 (constant and non-constant; weights all positive / all zero / first zero; the pair types fed through add and, a second time, by reference through collect / extend) x 60 values spanning the C01 domain (both signs, 0, 1e+-30), plus constant streams of length 5, 10, 100, 1000, 10000, plus generated values. Oracle: the sentinel table of C16 (NaN / +-inf / 0 / 1), no panic except the documented zero-variance assertion of standardized_moment(p >= 3) (checked to be exactly that assertion), and for one observation or a constant add-only stream mean() == x and population_variance, variance_of_mean, error, skewness, kurtosis, central_moment(p >= 1) == 0, never NaN. Non-trivial = every table cell; distinct = hash of (type, values, weights)");
     cx.assume("effective_len of a non-empty zero-total-weight sample is not fixed by the property and not judged");
     let all = cases();
     let total = all.len() as u64;
